@@ -7,6 +7,7 @@ here=$(cd "$(dirname "$0")" && pwd)
 prop=${1:?property}; tier=${2:-quick}
 mkdir -p "$here/bin" "$here/evidence"
 bin="$here/bin/mc"
+[ -n "${VERIF_MAIN:-}" ] && bin="$here/bin/$(basename "$VERIF_MAIN")"
 args=()
 if [ -n "${VERIF_OVERLAY:-}" ]; then
   bin=$(mktemp "${TMPDIR:-/tmp}/mc.XXXXXX")
@@ -14,7 +15,7 @@ if [ -n "${VERIF_OVERLAY:-}" ]; then
   trap 'rm -f "$bin"' EXIT
 fi
 tmpbin="$bin.$$"
-if ! (cd "$here/mc" && cp -f /repo/go.sum go.sum 2>/dev/null; $GO build "${args[@]}" -o "$tmpbin" ./cmd/mc) ; then
+if ! (cd "$here/mc" && cp -f /repo/go.sum go.sum 2>/dev/null; $GO build "${args[@]}" -o "$tmpbin" "${VERIF_MAIN:-./cmd/mc}") ; then
   echo "BUILD-FAILED property=$prop" >&2
   rm -f "$tmpbin"
   exit 2
